@@ -73,8 +73,10 @@ def normPath (fs : Fs) (p : Str) : Str :=
   '/' :: joinWith '/' (go [] (splitOn '/' full))
 
 def Fs.isFile (fs : Fs) (p : Str) : Bool := (alookup (normPath fs p) fs.files).isSome
+/-- a directory: a listed one, or the root (which always exists) -/
+def Fs.isDir (fs : Fs) (p : Str) : Bool := fs.dirs.contains (normPath fs p) || normPath fs p == ['/']
 def Fs.exists (fs : Fs) (p : Str) : Bool :=
-  fs.isFile p || fs.dirs.contains (normPath fs p)
+  fs.isFile p || fs.isDir p
 def Fs.read (fs : Fs) (p : Str) : Option Str := alookup (normPath fs p) fs.files
 
 /-- order of `BTreeSet<PathBuf>`: component-wise; the root component sorts below names -/
@@ -283,7 +285,8 @@ def directiveParse (inc : IncludeFn) (cur : Str) (incs : List Str)
       | .opList _, some (.s path) =>
         match inc path incs st with
         | .ok (st', incs') => .ok (st', incs', .newLine)
-        | .error e => .error e
+        -- MAX_INCLUDE_DEPTH is checked by the `.include` arm itself, so the error names this line
+        | .error e => if e.kind = "include-depth" ∧ e.line = none then lineErr ln "include-depth" else .error e
         | .panic s => .panic s
         | .oof => .oof
       | _, _ => lineErr ln "include-args"
@@ -294,7 +297,7 @@ def directiveParse (inc : IncludeFn) (cur : Str) (incs : List Str)
         else
           match pathParent cur with
           | some par => .ok (st, pathsInsert (pathPush par path) incs, .newLine)
-          | none => .panic "includepath: current_path.parent().unwrap()"
+          | none => .ok (st, pathsInsert (pathPush [] path) incs, .newLine)
       | _, _ => lineErr ln "includepath-args"
     | .if | .elif =>
       match ops, first with
@@ -411,11 +414,14 @@ def writeBack (own : Option Str) (incsFile incs : List Str) : List Str :=
 /-- `parse_file_internal` for the path `path` as written, with the includer's include set; the
     first argument bounds the include nesting (the Rust recursion has no bound of its own) -/
 def parseFileAt (fs : Fs) : Nat → IncludeFn
-  | 0, _, _, _ => .oof
+  | 0, _, _, _ => .error ⟨none, "include-depth"⟩
   | d + 1, path, incs, st =>
     let resolved : Str := resolvePath fs path incs
     match fs.read resolved with
-    | none => .error ⟨none, "cannot-read-file:" ++ String.ofList resolved⟩
+    | none =>
+      -- a directory can be opened but not read: the error is the OS's, without the file name
+      if fs.isDir resolved then .error ⟨none, "read-directory"⟩
+      else .error ⟨none, "cannot-read-file:" ++ String.ofList resolved⟩
     | some src =>
       let par := pathParent resolved
       -- the file's own directory, when it is not in the set yet
@@ -432,8 +438,7 @@ def parseFileAt (fs : Fs) : Nat → IncludeFn
       | .panic s => .panic s
       | .oof => .oof
 
-/-- include nesting the model follows before giving up (`oof`); the Rust code recurses until the
-    stack overflows — see C16 -/
+/-- MAX_INCLUDE_DEPTH of parser.rs -/
 def includeDepth : Nat := 64
 
 /-- `parse_iter` as the code calls it -/
